@@ -35,3 +35,14 @@ contract(
           "implies(isinstance(left, dict) and isinstance(right, list), result == False)"],
     raises={"LiquidTypeError": "not isinstance(left, (str, list, dict))"},
 )
+
+contract(
+    "liquid2.shopify.tags.tablerow_tag:_int_or_zero",
+    props=["C02"],
+    params={"arg": Union(Int, Float, PosInf, NegInf, NaN, Str, NoneT, TrueT, ListOf("any"))},
+    globals_={"MAX_STR_INT": Int},
+    pre=["MAX_STR_INT == 0 or MAX_STR_INT >= 640"],
+    post=["implies(isinstance(arg, int), result == arg)"],
+    raises={"LiquidValueError": None},       # `cols:` from data - infinities, nan, nil, containers: 0, never OverflowError / ValueError / TypeError
+    returns=Int,
+)
